@@ -319,6 +319,14 @@ pub fn c10(ctx: &mut Ctx) {
         c10_case,
     );
     ctx.expect_labels("static-monitor", &["static-frame", "write-attempt-in-static", "write-attempt-at-static-depth>=2"]);
+    ctx.run_cases(
+        "static-eof",
+        "OSAKA: a legacy root STATICCALLs (or an EOF root EXTSTATICCALLs) a generated valid EOF contract A, which EXTCALL/EXTDELEGATECALL/EXTSTATICCALLs a second generated EOF contract B, a storing legacy contract, itself, EOAs and precompiles; both contain SSTORE/TSTORE/LOG/EOFCREATE/value-bearing EXTCALL templates; same monitor: state snapshot at every static call == state at its end, every write executed under is_static fails; non-trivial = a write attempt while >= 2 static frames are open",
+        crate::eofcheck::static_eof_strategy,
+        ctx.tier.pick(60_000, 1_500_000),
+        crate::eofcheck::c10_eof_case,
+    );
+    ctx.expect_labels("static-eof", &["static-frame", "write-attempt-in-static", "write-attempt-at-static-depth>=2", "ran:EXTDELEGATECALL", "ran:EXTCALL", "ran:EXTSTATICCALL"]);
 }
 
 pub fn c11b_case(case: &WorldCase) -> CaseResult {
@@ -785,8 +793,9 @@ const KINDS: [u8; 6] = [0xf1, 0xf2, 0xf4, 0xfa, 0xf0, 0xf5];
 
 /// Outcomes: 0 ok, 1 revert, 2 invalid opcode, 3 out of gas (tiny gas), 4 insufficient balance,
 /// 5 precompile error, 6 precompile oog, 7 static violation, 8 value overflow into the whale,
-/// 9 create collision, 10 initcode returns 0xEF, 11 oversized initcode, 12 code too large
-const N_OUTCOMES: u8 = 13;
+/// 9 create collision, 10 initcode returns 0xEF, 11 oversized initcode, 12 code too large,
+/// 13 create endowment overflows the (pre-funded) target address
+const N_OUTCOMES: u8 = 14;
 
 fn helper(i: u8) -> u8 {
     pool::IDX_CONTRACT0 + 1 + i
@@ -804,7 +813,7 @@ fn depth_world(c: &DepthCase) -> WorldCase {
         if (kind == 0xf4 && spec < 2) || (kind == 0xfa && spec < 6) {
             kind = 0xf1;
         }
-        if kind == 0xf5 && spec < 7 {
+        if kind == 0xf5 && (spec < 7 || outcome % N_OUTCOMES == 13) {
             kind = 0xf0;
         }
         let is_create = kind == 0xf0 || kind == 0xf5;
@@ -819,6 +828,7 @@ fn depth_world(c: &DepthCase) -> WorldCase {
                 10 => (Init::ReturnBytes(vec![0xef, 0x00]), Arg::N(0)),
                 11 => (Init::Big(49153), Arg::N(0)),
                 12 => (Init::ReturnZeros(24577), Arg::N(0)),
+                // 13: the first three CREATE addresses of the prefix contract hold 2^256-1 wei (see below)
                 _ => (Init::Empty, Arg::N(1)),
             };
             let s = Stmt::Create { create2: kind == 0xf5, value, salt: Arg::N(7), init: init.clone(), status: Sink::Pop };
@@ -920,6 +930,12 @@ fn depth_world(c: &DepthCase) -> WorldCase {
     accounts.push(AccountSpec { addr: pool::IDX_EMPTY0, balance: r::U256::one(), nonce: 1, code: prog(vec![Stmt::Op { op: 0x55, args: vec![Arg::Key(1), Arg::N(1)], sink: Sink::Pop }], Term::Stop), storage: vec![] });
     accounts.push(AccountSpec { addr: pool::IDX_WHALE, balance: r::U256::MAX - r::U256::from(10u64), nonce: 0, code: Code::None, storage: vec![] });
     accounts.push(AccountSpec { addr: pool::IDX_EMPTY0 + 1, balance: r::U256::from(1_000_000u64), nonce: 1, code: Code::Prog(prefix_prog), storage: vec![] });
+    if c.prefix.iter().any(|(k, o)| o % N_OUTCOMES == 13 && matches!(KINDS[*k as usize % KINDS.len()], 0xf0 | 0xf5)) {
+        // endowment overflow: the addresses the prefix contract's first CREATEs map to are already as rich as possible
+        for i in 63u8..=65 {
+            accounts.push(AccountSpec { addr: i, balance: r::U256::MAX, nonce: 0, code: Code::None, storage: vec![] });
+        }
+    }
     WorldCase {
         spec,
         accounts,
@@ -1003,7 +1019,8 @@ pub fn c07_depth_case(c: &DepthCase) -> CaseResult {
             9 => "prefix:collision",
             10 => "prefix:0xEF-code",
             11 => "prefix:initcode-too-large",
-            _ => "prefix:code-too-large",
+            12 => "prefix:code-too-large",
+            _ => "prefix:create-endowment-overflow",
         });
     }
     o.labels.dedup();
@@ -1014,7 +1031,7 @@ pub fn c07(ctx: &mut Ctx) {
     let n = ctx.tier.pick(3_000, 100_000);
     ctx.run_cases(
         "depth-probe",
-        "directed: a sequence of 0-6 sibling CALL/CALLCODE/DELEGATECALL/STATICCALL/CREATE/CREATE2 with forced outcomes (ok, revert, invalid opcode, out of gas, insufficient balance, precompile error/OOG, static violation, value overflow into a 2^256-10 whale, CREATE2 collision, 0xEF code, oversized initcode, oversized code) followed by a self-recursive probe that returns the deepest level reached; oracle: exactly 1024 levels whatever the prefix (constant; reference EVM agrees), and journal depth at every *_end equals the depth at the matching start; non-trivial = prefix with a failing or early-rejected sibling; every spec FRONTIER..OSAKA",
+        "directed: a sequence of 0-6 sibling CALL/CALLCODE/DELEGATECALL/STATICCALL/CREATE/CREATE2 with forced outcomes (ok, revert, invalid opcode, out of gas, insufficient balance, precompile error/OOG, static violation, value overflow into a 2^256-10 whale, CREATE2 collision, 0xEF code, oversized initcode, oversized code, CREATE endowment overflowing a pre-funded 2^256-1 target) followed by a self-recursive probe that returns the deepest level reached; oracle: exactly 1024 levels whatever the prefix (constant; reference EVM agrees), and journal depth at every *_end equals the depth at the matching start; non-trivial = prefix with a failing or early-rejected sibling; every spec FRONTIER..OSAKA",
         || (0u8..20, prop::collection::vec((0u8..6, 0u8..N_OUTCOMES), 0..6)).prop_map(|(spec, prefix)| DepthCase { spec, prefix }),
         n,
         c07_depth_case,
@@ -1040,7 +1057,7 @@ pub fn c07(ctx: &mut Ctx) {
     ctx.expect_labels("eof-call-kinds", &["ran:EXTCALL", "ran:EXTDELEGATECALL", "ran:EXTSTATICCALL", "ran:EOFCREATE"]);
     ctx.expect_labels(
         "depth-probe",
-        &["prefix:ok", "prefix:revert", "prefix:invalid", "prefix:oog", "prefix:insufficient-balance", "prefix:precompile-error", "prefix:precompile-oog", "prefix:static-violation", "prefix:value-overflow", "prefix:collision", "prefix:0xEF-code", "prefix:initcode-too-large", "prefix:code-too-large"],
+        &["prefix:ok", "prefix:revert", "prefix:invalid", "prefix:oog", "prefix:insufficient-balance", "prefix:precompile-error", "prefix:precompile-oog", "prefix:static-violation", "prefix:value-overflow", "prefix:collision", "prefix:0xEF-code", "prefix:initcode-too-large", "prefix:code-too-large", "prefix:create-endowment-overflow"],
     );
     ctx.assumptions.push("the probe transaction uses gas limit 2^40 (needed to keep >= 1 call's worth of gas at depth 1024 under the 63/64 rule); EOF call kinds are covered by the depth monitor (part eof-call-kinds), not by the 1024-level probe".into());
     let _ = GenCfg::default();
